@@ -880,6 +880,9 @@ func (v Value) toReflectValue(typ reflect.Type) (reflect.Value, error) {
 				return exported.Convert(typ), nil
 			}
 			return reflect.Value{}, fmt.Errorf("TypeError: could not convert %v to reflect.Type: %v", exported, typ)
+		case valueString:
+			// The payload may be UTF-16 code units.
+			return reflectAssignable(reflect.ValueOf(v.string()), typ)
 		case valueEmpty, valueResult, valueReference:
 			// These are invalid, and should panic
 		default:
